@@ -417,6 +417,8 @@ impl Pager {
         if candidate == self.meta.next_page_id {
             self.meta.next_page_id = candidate + 1;
         }
+        #[cfg(nervusdb_verif)]
+        nervusdb_api::verif::page_event(nervusdb_api::verif::PageEvent::Allocate, candidate);
 
         self.ensure_allocated(PageId::new(candidate))?;
         Ok(PageId::new(candidate))
@@ -430,6 +432,8 @@ impl Pager {
 
         self.bitmap.set_allocated(page_id, false);
         self.flush_meta_and_bitmap()?;
+        #[cfg(nervusdb_verif)]
+        nervusdb_api::verif::page_event(nervusdb_api::verif::PageEvent::Free, page_id.as_u64());
         Ok(())
     }
 
@@ -446,6 +450,8 @@ impl Pager {
 
     pub fn write_page(&mut self, page_id: PageId, page: &[u8; PAGE_SIZE]) -> Result<()> {
         self.validate_data_page_id(page_id)?;
+        #[cfg(nervusdb_verif)]
+        nervusdb_api::verif::page_event(nervusdb_api::verif::PageEvent::Write, page_id.as_u64());
         if !self.bitmap.is_allocated(page_id) {
             return Err(Error::PageNotAllocated(page_id.as_u64()));
         }
@@ -461,6 +467,8 @@ impl Pager {
 
     pub(crate) fn ensure_allocated(&mut self, page_id: PageId) -> Result<()> {
         self.validate_data_page_id(page_id)?;
+        #[cfg(nervusdb_verif)]
+        nervusdb_api::verif::page_event(nervusdb_api::verif::PageEvent::Claim, page_id.as_u64());
 
         if page_id.as_u64() >= self.meta.next_page_id {
             self.meta.next_page_id = page_id.as_u64() + 1;
